@@ -38,9 +38,12 @@ def shapes(family, quick):
 
     def scen(tags, exv, name):
         if not exv:
-            return M.scenario(name, [S('g')], tags=tags())
-        return M.scenario(name, [S('g <a>')], [M.examples('e%d' % i, [['a'], ['1'], ['2']] if i == 0 else [['a'], ['3']], tags=t()) for i, t in enumerate(exv)],
-                          tags=tags(), outline=True)
+            return M.scenario(name, [S('g')] if name != 's2' else [], tags=tags())
+        exs = [M.examples('e%d' % i, [['a'], ['1'], ['2']] if i == 0 else [['a'], ['3']], tags=t()) for i, t in enumerate(exv)]
+        if len(exv) == 2:
+            # a tagged block without a table (and one with a header only) in front of the blocks that yield pickles
+            exs = [M.examples('none', None, tags=[TL(['@no-table'])]), M.examples('hdr', [['a']], tags=[TL(['@header-only'])])] + exs
+        return M.scenario(name, [S('g <a>')], exs, tags=tags(), outline=True)
     scen_variants = [(t, e) for t in st for e in ex_variants]
     reduced = [(t, ()) for t in st[:3]] + [(st[1], (et[1],))]
     if family == 'feature-level':
